@@ -29,6 +29,7 @@ import (
 	"github.com/rulego/streamsql/logger"
 	"github.com/rulego/streamsql/metrics"
 	"github.com/rulego/streamsql/types"
+	"github.com/rulego/streamsql/utils/verifhook"
 	"github.com/rulego/streamsql/window"
 )
 
@@ -268,12 +269,14 @@ func (s *Stream) Stop() {
 	s.startMu.Unlock()
 
 	close(s.done)
+	verifhook.Point("stop.after_done")
 
 	// Stop window operations first to prevent new window triggers
 	if s.Window != nil {
 		s.Window.Stop()
 	}
 
+	verifhook.Point("stop.after_window")
 	// Do not close dataChan: a close races with in-flight producers. Nil makes them stop.
 	s.dataChanMux.Lock()
 	s.dataChan = nil
@@ -291,7 +294,9 @@ func (s *Stream) Stop() {
 	// a user sink that blocks forever cannot be interrupted (Go has no goroutine
 	// kill), so it is abandoned after the grace rather than hanging the caller
 	// (e.g. a rulego component Destroy).
+	verifhook.Point("stop.before_wait")
 	s.waitLifecycle()
+	verifhook.Point("stop.after_wait")
 
 	// 停止 CEP sweeper：数据处理 goroutine 已 join，不再有并发 Process；紧接的 Flush 看到静止引擎。
 	if s.cep != nil {
